@@ -16,17 +16,17 @@ import (
 
 // Node is one node of the abstract program (see coq/C15/Model.v: instr).
 type Node struct {
-	T   string `json:"t"`             // ev probe throw loop try call nat forof gen async job
-	Id  int    `json:"id,omitempty"`  // serial (event ids derive from it)
-	N   int    `json:"n,omitempty"`   // loop / forEach / for-of count
-	K   string `json:"k,omitempty"`   // nat: sort foreach getter gocall gocallsw nested nestedsw
-	B   []Node `json:"b,omitempty"`   // body
-	C   []Node `json:"c,omitempty"`   // catch body
-	F   []Node `json:"f,omitempty"`   // finally body / async post
-	HC  bool   `json:"hc,omitempty"`  // has catch
-	HF  bool   `json:"hf,omitempty"`  // has finally
-	Ret bool   `json:"ret,omitempty"` // for-of: the iterator has a return()
-	S   [][]Node `json:"s,omitempty"` // gen: segments
+	T   string   `json:"t"`             // ev probe throw loop try call nat forof gen async job
+	Id  int      `json:"id,omitempty"`  // serial (event ids derive from it)
+	N   int      `json:"n,omitempty"`   // loop / forEach / for-of count
+	K   string   `json:"k,omitempty"`   // nat: sort foreach getter gocall gocallsw nested nestedsw
+	B   []Node   `json:"b,omitempty"`   // body
+	C   []Node   `json:"c,omitempty"`   // catch body
+	F   []Node   `json:"f,omitempty"`   // finally body / async post
+	HC  bool     `json:"hc,omitempty"`  // has catch
+	HF  bool     `json:"hf,omitempty"`  // has finally
+	Ret bool     `json:"ret,omitempty"` // for-of: the iterator has a return()
+	S   [][]Node `json:"s,omitempty"`   // gen: segments
 }
 
 type Case struct {
@@ -234,29 +234,29 @@ func coqNs(xs []int) string {
 // executing a case
 
 type obs struct {
-	Kind, Tok     int
-	Log           []int
-	Idle          []int
-	Sp0           bool
-	FKind, FTok   int
-	FLog          []int
-	FIdle         []int
-	After         int // log/probe calls after an (uncleared) Interrupt of the main call
-	Probes        int
-	PrgNil        int
-	Interrupted   bool
+	Kind, Tok   int
+	Log         []int
+	Idle        []int
+	Sp0         bool
+	FKind, FTok int
+	FLog        []int
+	FIdle       []int
+	After       int // log/probe calls after an (uncleared) Interrupt of the main call
+	Probes      int
+	PrgNil      int
+	Interrupted bool
 }
 
 type env struct {
-	vm      *goja.Runtime
-	log     []int
-	probes  int
-	k       int
-	clr     bool
-	armed   bool
-	after   int
-	srcs    []string
-	intrAt  int
+	vm     *goja.Runtime
+	log    []int
+	probes int
+	k      int
+	clr    bool
+	armed  bool
+	after  int
+	srcs   []string
+	intrAt int
 }
 
 func classify(err error) (int, int) {
@@ -666,6 +666,7 @@ func asyncStage(m vh.Mode) int {
 			delayUs = 0
 		}
 		clearFirst := rng.Chance(20)
+		double := rng.Chance(35) // Interrupt called twice back to back: the second write of interruptVal can overlap the runner's read
 		tok := 5000 + i
 		var handlerLog []int
 		vm := goja.New()
@@ -698,6 +699,9 @@ func asyncStage(m vh.Mode) int {
 				time.Sleep(time.Duration(delayUs) * time.Microsecond)
 			}
 			vm.Interrupt(tok)
+			if double {
+				vm.Interrupt(tok)
+			}
 		}()
 		go func() {
 			_, err := vm.RunString(asyncScripts[si])
@@ -725,7 +729,7 @@ func asyncStage(m vh.Mode) int {
 			<-fired
 			vm.ClearInterrupt()
 		}
-		rec := map[string]interface{}{"i": i, "script": asyncScripts[si], "delay_us": delayUs, "clear_first": clearFirst,
+		rec := map[string]interface{}{"i": i, "script": asyncScripts[si], "delay_us": delayUs, "clear_first": clearFirst, "double": double,
 			"verdict": verdict, "kind": kind, "tok": got, "want": tok}
 		if verdict == "ok" {
 			id := goja.VerifIdle(vm)
